@@ -6,6 +6,33 @@ STD_ASSUME = ["the Lean model is tied to /repo by the T1 extractor and the T2 co
 HOOK_COMMITS = []
 
 PROPS = {
+    "C05": {
+        "claimed": False, "na_reason": "proofs in progress (model, correspondence, T1 pins done; C05_main being proved)",
+        "model_modules": ["TemplVerif.Model.Css", "TemplVerif.Spec.CssScan"],
+        "proof_modules": ["TemplVerif.Proofs.Css"],
+        "thorough_shards": 12,
+        "level_text": "Lean 4 theorem C05_main proves for EVERY (property, value) pair of byte strings, and for every behaviour of net/url.Parse "
+                      "(a parameter), that the pair returned by the model of safehtml.SanitizeCSS is safely ONE declaration under a CSS Syntax 3 "
+                      "declaration-scanner specification: it ends exactly at the ';' written after it whatever follows, calls no function but "
+                      "url() with no/http/https/mailto scheme, and contains no '<'. The sanitiser map, url forms, regex sources, innocuous "
+                      "constants and rejected-character sets are regenerated from safehtml/style.go on every run and pinned by decide. The model "
+                      "is compared with the real SanitizeCSS / templ.SanitizeCSS / style-attribute map and KV forms / rendered css components on "
+                      "every run, and the Lean scanner predicate is evaluated on the real outputs.",
+        "level_note": "Trusted: Lean kernel; the hand-written CSS declaration scanner (no CSS engine offline); regexp recognisers transcribed by "
+                      "hand (sources pinned, behaviour tied by T2); net/url.Parse is a parameter (only getScheme, the CTL check and the "
+                      "first-segment-colon rule are modelled; the law 'Parse ok => modelled checks pass' is monitored); strings.TrimSpace "
+                      "modelled with Go's rune decoding. Plain-string style attributes and SafeCSS values are outside the statement.",
+        "rule": "6 property classes (background-image, font-family, display, listed regular, unlisted, invalid name) x every value over the "
+                "22-symbol CSS alphabet (; : { } ( ) \" ' \\ / * < > , @ a u r l - space LF) to length 3 (quick) / 4 (thorough) x 13 property "
+                "spellings x 110 value shapes (url() x quote kinds x schemes, quoted family lists, comment fragments, escapes) + random "
+                "compositions; css components rendered through the real generator. Non-trivial = value kept by the sanitiser and not purely alphabetic.",
+        "exhaustive": True,
+        "proved": ["C05_main (DeclSafe of the sanitised pair, all inputs, all url.Parse behaviours)", "C05_name", "C05_styleAttr", "T1 pins by decide"],
+        "monitored": ["model = real safehtml.SanitizeCSS, templ.SanitizeCSS, SanitizeStyleAttributeValues (map, KV)", "scanner predicate on real outputs incl. rendered <style> text"],
+        "partial": [],
+        "trusted_base": ["CSS Syntax 3 declaration scanner spec (Spec/CssScan.lean)", "net/url.Parse as a parameter"],
+        "assumptions": STD_ASSUME,
+    },
     "C03": {
         "claimed": False, "na_reason": "proofs in progress (model, correspondence and T1 theorems done; general lexing theorems being proved)",
         "model_modules": ["TemplVerif.Model.Js", "TemplVerif.Spec.JsLex"],
